@@ -879,6 +879,20 @@ func TestC17(t *testing.T) {
 		if i%10 == 9 {
 			reqs = append(reqs, Rpc{Kind: "listSubs", Project: "projects/p", Size: 100}, Rpc{Kind: "advance", Adv: time.Second})
 		}
+		if i%10 == 4 {
+			// the dead-letter topic is deleted and made again under its name: subscriptions that named it now
+			// name a deleted topic, until an update names the (new) topic again
+			reqs = append(reqs, Rpc{Kind: "deleteTopic", Name: D}, Rpc{Kind: "createTopic", Name: D})
+			for _, j := range []int{i, i - 1, i - 2} {
+				if j < 0 {
+					continue
+				}
+				name := fmt.Sprintf("projects/p/subscriptions/s%d", j)
+				upd := randSub(name)
+				upd.DLTopic, upd.DLMax = pstr(D), []int32{1, 7}[r.Intn(2)]
+				reqs = append(reqs, Rpc{Kind: "getSub", Name: name}, Rpc{Kind: "updateSub", Has: true, Paths: []string{"dead_letter_policy"}, Sub: upd}, Rpc{Kind: "getSub", Name: name})
+			}
+		}
 	}
 	var lastGet map[string]map[string]string = map[string]map[string]string{}
 	pathFields := map[string][]string{"labels": {"labels"}, "expiration_policy": {"ttl"}, "message_retention_duration": {"retention"}, "enable_message_ordering": {"ordering"},
@@ -951,6 +965,14 @@ func TestC17(t *testing.T) {
 					}
 				}
 				st.Count("get_after_create_checks", 1)
+			}
+		case "deleteTopic":
+			if res.Status == "OK" {
+				for _, e := range lastGet {
+					if strings.HasPrefix(e["dl"], Enc(rq.Name)+"#") {
+						e["dl"] = Enc("_deleted-topic_") + "#" + strings.SplitN(e["dl"], "#", 2)[1]
+					}
+				}
 			}
 		case "updateTopic":
 			// a topic update whose mask names `labels` and that is answered OK: the response, and the next
